@@ -531,4 +531,20 @@ theorem bsonDocument_cases (ser : Ser) (v : J) :
       | none => exact Or.inr (Or.inr (Or.inl ⟨rfl, rfl, rfl, by simp [orFail]⟩))
       | some b => exact Or.inr (Or.inr (Or.inr ⟨b, rfl, rfl, rfl, by simp [orFail]⟩))
 
+/-- what an accepted command line consists of -/
+theorem clap_some (fl : Flags) (args : Args) (h : clap fl = some args) :
+    fl.game.bind clapString = some args.game ∧ fl.ip.bind clapString = some args.ip ∧ clapOpt clapU16 fl.port = some args.port
+    ∧ clapTimeout fl = some args.timeoutSettings ∧ clapExtra fl = some args.extraOptions := by
+  unfold clap at h
+  simp only [Option.bind_eq_bind, Option.bind_eq_some_iff, Option.pure_def, Option.some.injEq] at h
+  obtain ⟨game, hg, ip, hi, port, hp, format, hf, mode, hm, timeout, ht, extra, he, rfl⟩ := h
+  simp only [Option.bind_eq_some_iff]
+  exact ⟨hg, hi, hp, ht, he⟩
+
+/-- a flag group that is refused makes the whole command line refused -/
+theorem clap_none_of_timeout (fl : Flags) (h : clapTimeout fl = none) : clap fl = none := by
+  cases hc : clap fl with
+  | none => rfl
+  | some args => have := (clap_some fl args hc).2.2.2.1; rw [h] at this; cases this
+
 end Gd.CliPlan
